@@ -249,6 +249,68 @@ impl Check for C05 {
                 rec(run, s, l, w, h, &alpha, &pr, &mut hist, depth);
             });
         }
+        // deep stacks: every history of length <= L over four side-cutting rects, one AA path and
+        // pop (stack depths up to L), the state oracle after every prefix and three probes
+        {
+            let (w, h) = (6, 5);
+            let deep_len = if q { 6 } else { 8 };
+            let alpha = vec![
+                Op::PushClipRect(1, 0, w, h),
+                Op::PushClipRect(0, 1, w, h),
+                Op::PushClipRect(0, 0, w - 1, h),
+                Op::PushClipRect(-1, -1, w + 1, h - 1),
+                Op::PushClip(PathSpec::poly(&[(0.25, 0.0), (6.0, 0.5), (5.5, 5.0), (0.5, 4.75)])),
+                Op::PopClip,
+            ];
+            let all = probes(w, h);
+            let pr = vec![all[1].clone(), all[6].clone(), all[7].clone()];
+            let na = alpha.len();
+            run.bound("deep clip stacks", format!("all histories of length 0..={} over {} stack ops (four rects each cutting one side, one AA path, pop) x {} probes on {}x{}", deep_len, na, pr.len(), w, h));
+            run.par(na * na, |s, l| {
+                fn rec(run: &Run, s: usize, l: &mut Local, alpha: &[Op], pr: &[Vec<Op>], hist: &mut Vec<Op>, depth: usize) {
+                    l.states += 1;
+                    let nopen = track(hist).model.items.len();
+                    for p in pr {
+                        let mut ops = hist.clone();
+                        ops.extend(p.iter().cloned());
+                        l.transitions += ops.len() as u64;
+                        l.traces += 1;
+                        l.evals += 1;
+                        match eval(6, 5, &Dst::Distinct, &ops, hist.len()) {
+                            Ok((st, hsh)) => {
+                                l.count("pixels_checked", st.checked);
+                                if st.foreign {
+                                    l.count("probes_skipped_lenient_or_dependency", 1);
+                                }
+                                if st.partial > 0 {
+                                    l.nontrivial += 1;
+                                }
+                                l.count(if nopen >= 5 { "deep_states_depth_ge_5" } else { "deep_states_depth_lt_5" }, 1);
+                                l.outcome(hsh);
+                            }
+                            Err(v) => run.report(500_000 + s, v),
+                        }
+                    }
+                    if hist.len() >= depth || run.expired() {
+                        return;
+                    }
+                    for op in alpha {
+                        if matches!(op, Op::PopClip) && nopen == 0 {
+                            continue;
+                        }
+                        hist.push(op.clone());
+                        rec(run, s, l, alpha, pr, hist, depth);
+                        hist.pop();
+                    }
+                }
+                let (i0, i1) = (s / na, s % na);
+                if matches!(alpha[i0], Op::PopClip) {
+                    return;
+                }
+                let mut hist = vec![alpha[i0].clone(), alpha[i1].clone()];
+                rec(run, s, l, &alpha, &pr, &mut hist, deep_len);
+            });
+        }
         super::mixed::explore_mixed(run, "C05", owns_clip, if q { 4 } else { 5 }, false);
     }
 
